@@ -2,7 +2,7 @@
 # like try_seed.sh but against a PRIVATE copy of /verif (/tmp/vb) and of /repo's HEAD (/tmp/vb_repo): usable while /repo is busy.
 # usage: tools/side_try_seed.sh <seed dir name under seeded/> <check ids...>      (DEV=1 for --dev)
 S=$1; shift
-VB=/tmp/vb; VR=/tmp/vb_repo
+VB=/tmp/vb${IDX:-}; VR=/tmp/vb_repo${IDX:-}
 mkdir -p $VB
 rsync -a --exclude 'build/target*' --exclude 'build/cov' --exclude '.git' --exclude 'evidence' --exclude 'replays' /verif/ $VB/
 mkdir -p $VB/evidence $VB/replays
